@@ -607,6 +607,10 @@ func emitFeatures(t, v map[string]interface{}, top string, o map[string]interfac
 		switch sstr(v["g"]) {
 		case "n", "s", "by", "z":
 			f["v_"+sstr(v["c"])] = true
+			if sstr(v["c"]) == "slong" {
+				// features describe the content: the long class holds HTML-sensitive characters and U+2028 as well
+				f["v_shtml"], f["v_sls"] = true, true
+			}
 		case "nil":
 			f["v_nil"] = true
 		case "p":
